@@ -167,6 +167,25 @@ def main():
         expect("pool model: TLC finds the behaviour in which a Close without Wait leaves a queued task behind",
                "EarlyCloseLosesNothing is violated" in open(os.path.join(d, "tlc_early_neg.log")).read(), "")
 
+    # ---- negative control: the TLAPS proof of the timed retry loop depends on the wait being honoured --------------
+    sp = os.path.join(d, "spec", "FlytRetryTimed.tla")
+    txt = open(sp).read()
+    assert "/\\ pc = \"wait\" /\\ now - ws >= W\n" in txt
+    try:
+        run_tlapm(d, "FlytRetryTimedProof")
+        expect("TLAPS proves the timed retry loop's invariant", True)
+    except ToolFailure as e:
+        expect("TLAPS proves the timed retry loop's invariant", False, str(e)[-300:])
+    with open(sp, "w") as f:
+        f.write(txt.replace("/\\ pc = \"wait\" /\\ now - ws >= W\n", "/\\ pc = \"wait\" /\\ now - ws >= W - 1\n"))
+    try:
+        run_tlapm(d, "FlytRetryTimedProof")
+        expect("with a wait that may end one tick early the proof fails", False, "all obligations proved")
+    except ToolFailure:
+        expect("with a wait that may end one tick early the proof fails", True)
+    with open(sp, "w") as f:
+        f.write(txt)
+
     os.makedirs(os.path.join(ROOT, "selftest"), exist_ok=True)
     with open(os.path.join(ROOT, "selftest", "report.json"), "w") as f:
         json.dump({"demonstrations": report, "failed": failed}, f, indent=1)
